@@ -38,7 +38,8 @@ try:
         w = cfg["word"]
         if isinstance(w, list):
             w = bytes(w)
-        out["parse"] = [repr(snap(t)) for t in spec.parse(w)]
+        out["parse"] = [repr(snap(t)) for t in spec.parse(w)][:64]
+        out["first_tree"] = repr(snap(spec.grammar.parse(w))) if spec.grammar.parse(w) is not None else None
 except Exception as e:
     out["error"] = type(e).__name__ + ": " + str(e)[:200]
 print("C17OBS " + json.dumps(out))
